@@ -210,6 +210,17 @@ func (s *objSpec) format(st fmt.State, verb rune) {
 // hook, Sprintfn) or the fmt.State st (Format; SafePrinter operations are
 // available after a "Discover" op if st really is redact's printer, otherwise
 // they fall back to writing their text through st).
+// flagsOf: the flags a Format / SafeFormat method observes, in the order + - # space 0
+func flagsOf(st fmt.State) string {
+	out := ""
+	for _, f := range "+-# 0" {
+		if st.Flag(int(f)) {
+			out += string(f)
+		}
+	}
+	return out
+}
+
 func (c *Ctx) RunScript(ops []SOp, p redact.SafePrinter, st fmt.State, verb rune) {
 	for _, op := range ops {
 		if p == nil {
@@ -223,6 +234,9 @@ func (c *Ctx) RunScript(ops []SOp, p redact.SafePrinter, st fmt.State, verb rune
 				continue
 			case "WriteVerb":
 				io.WriteString(st, string(verb))
+				continue
+			case "WriteFlags":
+				io.WriteString(st, flagsOf(st))
 				continue
 			case "Discover":
 				if sp, ok := st.(redact.SafePrinter); ok {
@@ -282,6 +296,8 @@ func (c *Ctx) RunScript(ops []SOp, p redact.SafePrinter, st fmt.State, verb rune
 			io.WriteString(p, string(c.Subst(op.B)))
 		case "WriteVerb":
 			io.WriteString(p, string(verb))
+		case "WriteFlags":
+			io.WriteString(p, flagsOf(p))
 		case "Print":
 			p.Print(c.Values(op.Ts)...)
 		case "Printf":
